@@ -320,16 +320,6 @@ Proof.
 Qed.
 
 (** the same, on observations: the executable clause that could be added to the oracle *)
-Definition c07_only_verify (prev : obs) (e : event) (cur : obs) : bool :=
-  forallb (fun p =>
-    if is_mode (o_replicas prev) (fst p) WO && mode_eqb (snd p) RW
-    then match e with
-         | Verify a _ => Nat.eqb a (fst p)
-         | SetMode a RW => Nat.eqb a (fst p)
-         | _ => false
-         end
-    else true) (o_replicas cur).
-
 Lemma c07_only_verify_model : forall n s e r0 ef0 r0',
   struct_ok s ->
   c07_only_verify (with_res1 (observe n s r0 ef0) r0') e
@@ -358,3 +348,23 @@ Proof.
   - apply struct_init. exact Hrf.
   - apply hist_ok_forallb. exact Hwf.
 Qed.
+
+(** ** non-vacuity: a history on which verify promotes the rebuilt replica (the checked branch of the
+    oracle is exercised), and the other way a WO replica becomes RW in the model: the set-mode request
+    (Controller.SetReplicaMode), which compares nothing *)
+Definition c07_promote : list event :=
+  [Register 0%nat 1%nat 1 false None []; Register 1%nat 2%nat 1 false None []; Start [0%nat] [];
+   AddCheck 1%nat []; AddCommit 1%nat []; SyncData 1%nat; Verify 1%nat []].
+Example c07_promotion_reached :
+  map o_replicas (trace 2 (init 2 []) (map One c07_promote))
+  = [[]; []; [(0%nat, RW)]; [(0%nat, RW)]; [(0%nat, RW); (1%nat, WO)]; [(0%nat, RW); (1%nat, WO)]; [(0%nat, RW); (1%nat, RW)]]
+  /\ walk (lift (c07_step 2) nopair) 0 (obs0 2 2 []) (map One c07_promote) (trace 2 (init 2 []) (map One c07_promote)) = None.
+Proof. vm_compute. split; reflexivity. Qed.
+
+Definition c07_setmode : list event :=
+  [Register 0%nat 1%nat 1 false None []; Register 1%nat 2%nat 1 false None []; Start [0%nat] [];
+   AddCheck 1%nat []; AddCommit 1%nat []; SetMode 1%nat RW].
+Example c07_setmode_promotes_unchecked :
+  map o_replicas (trace 2 (init 2 []) (map One c07_setmode))
+  = [[]; []; [(0%nat, RW)]; [(0%nat, RW)]; [(0%nat, RW); (1%nat, WO)]; [(0%nat, RW); (1%nat, RW)]].
+Proof. vm_compute. reflexivity. Qed.
